@@ -46,7 +46,19 @@ func workerTty(r *vk.Run, w, n int, args []string) {
 		init := string(file)
 		var log []string
 		for sess := 0; sess < 1+rng.Intn(3); sess++ {
-			s, err := tty.Start(tty.StartOpts{Args: []string{"--history", path, fmt.Sprintf("--history-size=%d", max), "--no-mouse"}, InputCmd: "printf 'foo\\nbar\\nfoo bar\\n'", Cols: 60, Rows: 12})
+			// the two options in either order, the size also from $FZF_DEFAULT_OPTS (an earlier source)
+			hargs := []string{"--history", path, fmt.Sprintf("--history-size=%d", max), "--no-mouse"}
+			var henv []string
+			switch rng.Intn(4) {
+			case 0:
+				hargs = []string{fmt.Sprintf("--history-size=%d", max), "--history", path, "--no-mouse"}
+			case 1:
+				hargs = []string{"--history-size", fmt.Sprint(max), "--no-history", "--history=" + path, "--no-mouse"}
+			case 2:
+				hargs = []string{"--history", path, "--no-mouse"}
+				henv = []string{fmt.Sprintf("FZF_DEFAULT_OPTS=--history-size %d", max)}
+			}
+			s, err := tty.Start(tty.StartOpts{Args: hargs, Env: henv, InputCmd: "printf 'foo\\nbar\\nfoo bar\\n'", Cols: 60, Rows: 12})
 			if err != nil {
 				r.Inconclusive("start: " + err.Error())
 				if s != nil {
